@@ -536,6 +536,20 @@ func TestC08(t *testing.T) {
 			return c
 		}, checkCanonical)
 	}
+	if env.Shards <= 1 {
+		pv := pairVectors()
+		Enum(h, "valid", len(pv), func(i int) gen.Valid { return pv[i] }, nil, checkCanonical)
+		if !h.replaying() {
+			nc := 0
+			for _, c := range pv {
+				if c.S != spec.Canon(spec.Versions[c.Ver], c.A) {
+					nc++
+				}
+			}
+			h.R.AddExact(int64(len(pv)), int64(nc))
+			h.R.Count("exhaustive: every ordered pair of metrics x every pair of values (v3: written first, i.e. non-canonical)", int64(len(pv)))
+		}
+	}
 	Rapid(h, "any", n, func(rt *rapid.T) gen.Str {
 		c := gen.AnyString(rt)
 		vi, member := memberOfAny(string(c.S))
